@@ -1,19 +1,26 @@
 import Lean.Data.Json
-import DrummerVerif.Model.ElectF
+import DrummerVerif.Model.ElectO
 open Lean Elect
 
 def jn (j : Json) (k : String) : Nat := (j.getObjValAs? Nat k).toOption.getD 0
 def js (j : Json) (k : String) : String := (j.getObjValAs? String k).toOption.getD ""
 def jb (j : Json) (k : String) : Bool := (j.getObjValAs? Bool k).toOption.getD false
 
-def show_ (ss : List SrvF) (r : Rec) : String :=
-  s!"rec={recInst r}/{recTick r}" ++ String.join (ss.map fun (sf : SrvF) =>
+def show_ (ss : List SrvO) (r : Rec) : String :=
+  s!"rec={recInst r}/{recTick r}" ++ String.join (ss.map fun (sf : SrvO) =>
     let s := sf.base
     match s.cur with
     | some c => s!" [{s.leader} {c.inst}/{c.tick}/{c.static}]"
     | none => s!" [{s.leader} -]")
 
-partial def loop (h : IO.FS.Stream) (ss : List SrvF) (r : Rec) : IO Unit := do
+/-- which DB operation is next for a server in this state -/
+def kindOf (s : SrvO) : String :=
+  match s.pend with
+  | .idle => "read"
+  | .readBack => "read"
+  | _ => if s.sess then "vote" else "session"
+
+partial def loop (h : IO.FS.Stream) (ss : List SrvO) (r : Rec) : IO Unit := do
   let line ← h.getLine
   if line.isEmpty then return ()
   match Json.parse line with
@@ -27,12 +34,23 @@ partial def loop (h : IO.FS.Stream) (ss : List SrvF) (r : Rec) : IO Unit := do
       match ss[i]? with
       | none => IO.println "bad-op"; loop h ss r
       | some s =>
-        -- "fail": k = the DB operations of the turn fail from the k-th on (0: none); "cancel" = the whole turn fails
+        if js j "op" == "micro" then
+          -- one DB operation of server i against the record as it is now
+          match micro s r (jb j "fail") with
+          | none => IO.println "panic"; loop h ss r
+          | some (s', r') =>
+            let ss' := ss.set i s'
+            IO.println (s!"{kindOf s} done={decide (s'.pend = .idle)} " ++ show_ ss' r')
+            loop h ss' r'
+        else
+        -- a whole turn, nothing in between ("fail": k = the DB operations of the turn fail from the k-th on (0: none);
+        -- "cancel" = the whole turn fails); `turnF` = `runTurn` by `Lemmas/C14O.runTurn_eq_turnF`
+        if s.pend != .idle then IO.println "turn-in-flight"; loop h ss r else
         let fa := if jb j "cancel" then 1 else jn j "fail"
-        match turnF s r fa with
+        match turnF { base := s.base, sess := s.sess } r fa with
         | none => IO.println "panic"; loop h ss r
         | some (s', r') =>
-          let ss' := ss.set i s'
+          let ss' := ss.set i { base := s'.base, sess := s'.sess, pend := .idle }
           IO.println (show_ ss' r')
           loop h ss' r'
 
